@@ -974,21 +974,43 @@ crate::harnesses! {
     #[cfg_attr(kani, kani::unwind(8))]
     fn sep_grammar_iltc_len5() { grammar_body!(F_ALL, 5) }
 
+    /// internal separators in all components: strings len <= 4 over {0 1 9 _ . e + - a}.
+    /// @prop C13 C10
+    /// @feat format radix_format
+    /// @bound format F_I (internal, all components); input length <= 4 over {0 1 9 _ . e + - a}
+    /// @fn lexical-util::skip::{peek, next, increment_count}[internal] via lexical-parse-float::parse::parse_number
+    /// @timeout 1500
+    #[cfg_attr(kani, kani::unwind(7))]
+    fn sep_internal_len4() { sep_body!(F_I, 4) }
+
     /// internal separators in all components: strings len <= 6 over {0 1 9 _ . e + - a}.
     /// @prop C13 C10
+    /// @tier thorough
+    /// @mem 8
     /// @feat format radix_format
     /// @bound format F_I (internal, all components); input length <= 6 over {0 1 9 _ . e + - a}
     /// @fn lexical-util::skip::{peek, next, increment_count}[internal] via lexical-parse-float::parse::parse_number
-    /// @timeout 3000
+    /// @timeout 5400
     #[cfg_attr(kani, kani::unwind(9))]
     fn sep_internal_len6() { sep_body!(F_I, 6) }
 
+    /// all separator flags (i/l/t/c, all components): strings len <= 4.
+    /// @prop C13 C10
+    /// @feat format radix_format
+    /// @bound format F_ALL; input length <= 4 over {0 1 9 _ . e + - a}
+    /// @fn lexical-util::skip (iltc) via parse_number
+    /// @timeout 1500
+    #[cfg_attr(kani, kani::unwind(7))]
+    fn sep_all_len4() { sep_body!(F_ALL, 4) }
+
     /// all separator flags (i/l/t/c, all components): strings len <= 6.
     /// @prop C13 C10
+    /// @tier thorough
+    /// @mem 8
     /// @feat format radix_format
     /// @bound format F_ALL; input length <= 6 over {0 1 9 _ . e + - a}
     /// @fn lexical-util::skip (iltc) via parse_number
-    /// @timeout 3000
+    /// @timeout 5400
     #[cfg_attr(kani, kani::unwind(9))]
     fn sep_all_len6() { sep_body!(F_ALL, 6) }
 
